@@ -194,11 +194,13 @@ def call_chain_callee(depth_total, env, formula, d, extra, local_at, name):
 
 
 def PROOFS():
-    from ..contracts import environment_c, call_resolver_c
+    from ..contracts import environment_c, call_resolver_c, scanner_c   # noqa: F401
     R = "formulae.terms.call_resolver."
     return [("vf.contracts.environment_c", environment_c.FUNCTIONS),
             ("vf.contracts.call_resolver_c", [R + "LazyVariable.eval", R + "get_function_from_module",
-                                              "formulae.environment.Environment.capture"])]
+                                              "formulae.environment.Environment.capture"]),
+            # the name that is looked up is the name that was written (one token spelling exactly its span)
+            ("vf.contracts.scanner_c", ["formulae.scanner.Scanner." + f for f in ("identifier", "add_token", "backquote")])]
 
 
 def run(report, findings):
